@@ -20,7 +20,9 @@ DIAG = re.compile(rb"Error|Wrong|Invalid|invalid|too short|not match|requires an
 PLAIN = bytes((i * 37 + 11) % 256 for i in range(100))
 
 
-def binary():
+def binary(production=False):
+    if production:      # the shipped constants (16 MiB chunks, 32 MiB hash window)
+        return wv.build("Wencry_prod", ["hash", "aes", "pipe", "kernel", "b64", "cli", "main"], [], [])
     return wv.build("Wencry", ["hash", "aes", "pipe", "kernel", "b64", "cli", "main"], [], ["-DWENCRY_VERIF_HBUF_SZ=4", "-DWENCRY_VERIF_BUF_SZ=4"])
 
 
@@ -137,6 +139,16 @@ def run(tier, replay):
         template = make_template(exe, root)
         with cf.ThreadPoolExecutor(14) as ex:
             events = list(ex.map(lambda iv: one_vector(exe, template, root, iv[0], iv[1]), enumerate(vecs)))
+        if tier == "thorough" and not replay:
+            # the same binary as shipped (no chunk/refill overrides): the well-formed vectors of every mode and a few failing ones
+            exe2 = binary(production=True)
+            root2 = os.path.join(root, "prod"); os.makedirs(root2)
+            template2 = make_template(exe2, root2)
+            sel = [v for v in allv if v["class"] == "OK" and len(v["tokens"]) <= 4][:60] + [v for v in allv if v["class"] == "FAIL"][:40]
+            with cf.ThreadPoolExecutor(6) as ex:
+                ev2 = list(ex.map(lambda iv: one_vector(exe2, template2, root2, len(events) + iv[0], iv[1]), enumerate(sel)))
+            events += ev2
+            res.cov["vectors_run_with_production_constants"] = len(ev2)
     finally:
         shutil.rmtree(root, ignore_errors=True)
     bad, st = wv.validate_trace("CLITrace", events, name=PID + "/tlc")
